@@ -77,7 +77,7 @@ Import String.
    docstrings, comments and layout).  A different digest means that the model is no longer known to describe the
    code; the check then reports the broken tie and looks for a failing input. *)
 Theorem c04_models_describe_the_current_source :
-  (pin_expand, pin_finalize_expand, pin_if_fn, pin_ifeq_fn, pin_switch_fn) = ("ef1e86598ed090ea", "6e6193b54ac95d13", "fa2797b21d9a63fb", "e1aa7edc9b6102c6", "70a23bf19ce6b825")%string.
+  (pin_expand, pin_finalize_expand, pin_if_fn, pin_ifeq_fn, pin_switch_fn) = ("f2db964246b00d81", "6e6193b54ac95d13", "fa2797b21d9a63fb", "e1aa7edc9b6102c6", "70a23bf19ce6b825")%string.
 Proof. reflexivity. Qed.
 Print Assumptions c04_models_describe_the_current_source.
 End Pins.
